@@ -61,7 +61,7 @@ AllTypesSeq == SetToSeq(LitTypes(AllCls))
 HasFlavour(c) == \E j \in DOMAIN c.files : \E i \in DOMAIN c.files[j].docs : c.files[j].docs[i].c \notin AbsCls
 
 \* long files: sort.Slice is stable up to 12 elements (insertion sort), so an unstable kind sort only
-\* shows on longer lists -- n documents, kinds cycling with stride a from offset b, in nf files
+\* shows on longer lists (and a document index that no longer fits a small integer only beyond 128) -- n documents, kinds cycling with stride a from offset b, in nf files
 LongKinds == <<"Secret", "Widget", "Deployment", "Gadget">>
 LongDocs(n, a, b) == [i \in 1..n |-> [k |-> LongKinds[((i * a + b) % 4) + 1],
                                       c |-> IF i % 5 = 0 THEN "hook1" ELSE IF i % 7 = 0 THEN "unk" ELSE "plain", g |-> "LIT"]]
@@ -69,7 +69,7 @@ LongCase(n, a, b, nf) ==
   LET ds == LongDocs(n, a, b) IN
   Case("part", FilesAt(IF nf = 1 THEN <<ds>> ELSE <<SubSeq(ds, 1, n \div 2), SubSeq(ds, (n \div 2) + 1, n)>>, <<Pa, Pb, Pc>>),
        {}, {}, {}, {}, "none", FALSE, FALSE, "none", "p")
-LongCases == {LongCase(n, a, b, nf) : n \in {14, 25, 40}, a \in {1, 3}, b \in {0, 1}, nf \in {1, 2}}
+LongCases == {LongCase(n, a, b, nf) : n \in {14, 25, 40, 140}, a \in {1, 3}, b \in {0, 1}, nf \in {1, 2}}
 
 (* ----- C05: charts on two levels ------------------------------------------- *)
 
@@ -108,7 +108,8 @@ TwinCases == {TwinCase(tw, no, cl, sn) : tw \in SUBSET {PA, S1A}, no \in SUBSET 
 \* program (values, include / tpl nesting depth 2, Files.Get / Glob, files outside the chart, DNS, state
 \* written by one file and read by another of the same chart or of the parent, mutation of a default list, fail);
 \* the named templates are defined twice (parent and subchart partial)
-ProgsP == {"LIT", "VAL", "INC", "INC2", "TPL", "TPL2", "FGET", "FGLOB", "FOUT", "DNS", "SET", "GET", "GETS", "MUT", "FAIL", "CAPV", "CAPA"}
+ProgsP == {"LIT", "VAL", "INC", "INC2", "TPL", "TPL2", "FGET", "FGLOB", "FOUT", "DNS", "SET", "GET", "GETS", "MUT", "FAIL", "CAPV", "CAPA",
+           "FCFG", "FSEC", "FGLOB2", "LOOK"}
 \* GETS reads the subchart's state through .Values.s1: only meaningful in a file of the parent
 ProgOK(asg) == \A p \in DOMAIN asg : asg[p] = "GETS" => p \in {Pa, Pb}
 ProgCase(asg, pa, dns) ==
